@@ -60,6 +60,9 @@ func c02Menu(w *mintops.W) []string {
 		for qi, q := range w.Quotes {
 			if qi >= 1 && q.Payments == 0 {
 				ops = append(ops, fmt.Sprintf("meltqi|%d", qi))
+				if w.Cfg.MPP {
+					ops = append(ops, fmt.Sprintf("meltqpi|%d", qi))
+				}
 			}
 		}
 	}
@@ -99,8 +102,9 @@ func c02Specs(quick bool) []*bfs.Spec {
 		specs = append(specs, &bfs.Spec{Prop: "C02", Name: fmt.Sprintf("C02-fee%d%s", f, sfx), Cfg: mintops.Config{Fee: f},
 			Init: []string{"fund|8,4,2,1,1,1,1"}, Menu: c02Menu, Depth: d})
 	}
+	// MPP configuration; an unpaid own quote is already present so that partial melts of the mint's OWN invoice are in reach
 	specs = append(specs, &bfs.Spec{Prop: "C02", Name: "C02-mpp-fee100" + sfx, Cfg: mintops.Config{Fee: 100, MPP: true},
-		Init: []string{"fund|8,4,2,1,1,1,1"}, Menu: c02Menu, Depth: d})
+		Init: []string{"fund|8,4,2,1,1,1,1", "mq|8"}, Menu: c02Menu, Depth: d})
 	return specs
 }
 
